@@ -300,6 +300,48 @@ fn restore_and_census(cfg: &Cfg, bk: &str, target: &str, universe: u64, how: &dy
     }
 }
 
+/// Restore in a forked child (a damaged archive that gets past verification may make the extraction abort the
+/// process on an absurd allocation), then start the engine here. Stages: "restore" (refused), "restore_aborted"
+/// (the child died), "start".
+fn restore_forked_and_census(cfg: &Cfg, bk: &str, target: &str, universe: u64, how: &dyn Fn(&RestoreManager) -> anyhow::Result<()>) -> Result<Census, (String, String)> {
+    let rm = RestoreManager::new(bk, target).map_err(|e| ("restore_manager".to_string(), format!("{:#}", e)))?;
+    let status = unsafe {
+        let pid = libc::fork();
+        if pid == 0 {
+            let devnull = libc::open(b"/dev/null\0".as_ptr() as *const libc::c_char, libc::O_WRONLY);
+            if devnull >= 0 {
+                libc::dup2(devnull, 2);
+            }
+            let code = match catch_unwind(AssertUnwindSafe(|| how(&rm))) {
+                Ok(Ok(())) => 0,
+                Ok(Err(_)) => 2,
+                Err(_) => 3,
+            };
+            libc::_exit(code);
+        }
+        let mut status: libc::c_int = 0;
+        libc::waitpid(pid, &mut status, 0);
+        status
+    };
+    if !libc::WIFEXITED(status) {
+        return Err(("restore_aborted".into(), "the restoring process was killed (abort on an absurd allocation or a crash) after verification let the archive through".into()));
+    }
+    match libc::WEXITSTATUS(status) {
+        0 => {}
+        2 => return Err(("restore".into(), "refused".into())),
+        _ => return Err(("restore".into(), "restore panicked".into())),
+    }
+    match catch_unwind(AssertUnwindSafe(|| Eng::recover(cfg, target))) {
+        Ok(Ok(e)) => {
+            let c = census(e.backend(), universe);
+            drop(e);
+            Ok(c)
+        }
+        Ok(Err(e)) => Err(("start".into(), mask_digits(&format!("{:#}", e)))),
+        Err(_) => Err(("start".into(), "engine start on the restored directory panicked".into())),
+    }
+}
+
 fn census_diff(a: &Census, b: &Census) -> String {
     crate::hist::diff_census(a, b)
 }
@@ -784,7 +826,17 @@ pub fn execute(plan: &Plan) -> Exec {
                     *ex.faults.entry(format!("{}_{}", what, if is_tar { "archive" } else { "metadata" })).or_insert(0) += 1;
                     ex.evals += 1;
                     let before = dir_files(&target);
-                    let res = restore_and_census(&p.cfg, &bk, &target, p.universe, &|rm| rm.restore_from_backup_with_options(vid, &ClearDirectoryOptions::new().with_allow_clear(true)));
+                    // a third of the damaged chains are restored through the point-in-time entry point (target = the
+                    // victim's timestamp); it may legitimately pick another eligible backup, so an accepted restore is
+                    // then compared with every backup's collection
+                    let via_pitr = drng.chance(1, 3);
+                    let vts = backups[victim].meta.timestamp;
+                    let res = if via_pitr {
+                        *ex.probes.entry("damaged_chain_restored_by_point_in_time".into()).or_insert(0) += 1;
+                        restore_forked_and_census(&p.cfg, &bk, &target, p.universe, &|rm| rm.restore_point_in_time_with_options(vts, &ClearDirectoryOptions::new().with_allow_clear(true)))
+                    } else {
+                        restore_forked_and_census(&p.cfg, &bk, &target, p.universe, &|rm| rm.restore_from_backup_with_options(vid, &ClearDirectoryOptions::new().with_allow_clear(true)))
+                    };
                     let after = dir_files(&target);
                     let file_kind = if is_tar { "archive" } else { "metadata" };
                     match res {
@@ -794,8 +846,18 @@ pub fn execute(plan: &Plan) -> Exec {
                                 ex.problems.push(prob("target_touched_by_refused_restore", format!("{} of {} ({}): restore was refused ({}) after the target directory had been changed", what, f_role(&f), region, m), &[("case", "damaged_backup"), ("file", file_kind), ("region", &region)]));
                             }
                         }
+                        Err((stage, m)) if stage == "restore_aborted" => {
+                            ex.problems.push(prob("damaged_backup_accepted", format!("{} of {} ({}): {}", what, f_role(&f), region, m), &[("file", file_kind), ("region", &region), ("outcome", "restoring_process_killed")]));
+                        }
                         Err((_, m)) => {
                             ex.problems.push(prob("damaged_backup_accepted", format!("{} of {} ({}): restore reported success but the engine does not start from the restored directory: {}", what, f_role(&f), region, m), &[("file", file_kind), ("region", &region), ("outcome", "does_not_start")]));
+                        }
+                        Ok(c) if via_pitr => {
+                            if backups.iter().any(|b| b.expected == c || b.expected_alt.as_ref() == Some(&c)) {
+                                *ex.probes.entry("damage_harmless_restore_equal".into()).or_insert(0) += 1;
+                            } else {
+                                ex.problems.push(prob("damaged_backup_accepted", format!("{} of {} ({}): point-in-time restore succeeded and the started collection equals no backup's: {}", what, f_role(&f), region, census_diff(&backups[victim].expected, &c)), &[("file", file_kind), ("region", &region), ("outcome", "different_collection")]));
+                            }
                         }
                         Ok(c) => {
                             if c != backups[victim].expected && Some(&c) != backups[victim].expected_alt.as_ref() {
